@@ -3,11 +3,11 @@ import os
 import sys
 import z3
 sys.path.insert(0, os.path.dirname(os.path.dirname(os.path.abspath(__file__))))
-from props.common import main, Run  # noqa: E402
+from props.common import main, Run, ALL_SIDECARS  # noqa: E402
 from props import faces  # noqa: E402
 from props.c12 import install_lemmas, dispatch_checked, HOOK_FNS  # noqa: E402
 
-SIDE = ("severity", "results", "analysis", "externals", "pickled_api", "loader", "hooks", "ml")
+SIDE = ALL_SIDECARS
 
 
 def build(run: Run):
